@@ -180,6 +180,86 @@ theorem honest_signature_verifies (chk : Bool) (d : Nat) (hd : d ≤ 10) (P : Ve
   simp only [decide_eq_true_eq]
   exact Int.le_trans (Int.add_le_add_right hle _) hnorm
 
+/-- what `Signature::to_bytes` emits for a body of the right length parses back to the same (salt, body) -/
+theorem sig_parse (N L : Nat) (salt body : List Nat) (hsalt : salt.length = 40) (hb : body.length = L)
+    (hNL : (N = 512 ∧ L = 625) ∨ (N = 1024 ∧ L = 1239)) :
+    KeyCodec.sigFromBytes N (KeyCodec.sigToBytes salt body) = .ok (.ok (salt, body)) := by
+  have hlen : (KeyCodec.sigToBytes salt body).length = 41 + L := by
+    simp [KeyCodec.sigToBytes, hsalt, hb]; omega
+  have hd1 : ((KeyCodec.sigToBytes salt body).drop 1).take 40 = salt := by
+    simp [KeyCodec.sigToBytes, ← hsalt]
+  have hd2 : (KeyCodec.sigToBytes salt body).drop 41 = body := by
+    have : (41 : Nat) = (salt.length + 1) := by omega
+    simp only [KeyCodec.sigToBytes, this]
+    rw [List.drop_left' (by simp)]
+  have hh : (KeyCodec.sigToBytes salt body)[0]? = some (((Gen.sigFeltEncoding * 32) % 256) ||| 16 ||| (KeyCodec.ilog2 L % 256)) := by
+    simp [KeyCodec.sigToBytes, hb]
+  rcases hNL with ⟨rfl, rfl⟩ | ⟨rfl, rfl⟩
+  · unfold KeyCodec.sigFromBytes
+    simp only [hlen, KeyCodec.sigN, idx, hh, Gen.saltLen, Gen.sigBodyOffset, hd1, hd2]
+    rfl
+  · unfold KeyCodec.sigFromBytes
+    simp only [hlen, KeyCodec.sigN, idx, hh, Gen.saltLen, Gen.sigBodyOffset, hd1, hd2]
+    rfl
+
+/-- **sign then verify, on bytes**: for both variants, every key lists with h⋆f = g and h⋆F = G, every message,
+    salt and EVERY sampler outcome z: if the model of `sign` (norm test, byte-level `compress`, `to_bytes`) returns
+    signature bytes instead of retrying, those bytes parse (`Signature::from_bytes`) to (salt, body) and `verify`
+    (hash, byte-level `decompress`, NTT product, centring, norm test) returns `true`, in both build modes.
+    Hypothesis `hhash`: the XOF yielded n accepted chunks within the model's block budget. -/
+theorem signed_bytes_verify (chk : Bool) (N d : Nat) (hN : (N = 512 ∧ d = 9) ∨ (N = 1024 ∧ d = 10))
+    (f g cF cG z0 z1 : List Int) (h msg salt sig : List Nat)
+    (lf : f.length = N) (lg : g.length = N) (lF : cF.length = N) (lG : cG.length = N)
+    (l0 : z0.length = N) (l1 : z1.length = N) (lh : h.length = N)
+    (hk1 : Ntt.negacyc N h (Ntt.toZq f) = Ntt.toZq g)
+    (hk2 : Ntt.negacyc N h (Ntt.toZq cF) = Ntt.toZq cG)
+    (hsalt : salt.length = 40)
+    (hhash : (Hash.hashToPoint (salt ++ msg) N).length = N)
+    (hs : SignSkel.signWith chk N f g cF cG msg salt z0 z1 = .ok (.ok sig)) :
+    ∃ body, KeyCodec.sigFromBytes N sig = .ok (.ok (salt, body)) ∧
+      Verify.verify chk N msg salt body h = .ok true := by
+  have hNd : N = 2 ^ d := by rcases hN with ⟨rfl, rfl⟩ | ⟨rfl, rfl⟩ <;> rfl
+  have hd : d ≤ 10 := by rcases hN with ⟨_, rfl⟩ | ⟨_, rfl⟩ <;> decide
+  obtain ⟨P, hP, hPb⟩ : ∃ P, Verify.params N = .ok P ∧ P.sigBound ≤ 70265242 := by
+    rcases hN with ⟨rfl, _⟩ | ⟨rfl, _⟩
+    · exact ⟨_, rfl, by decide⟩
+    · exact ⟨_, rfl, by decide⟩
+  obtain ⟨L, hL, hNL⟩ : ∃ L, ((if N = 512 then Gen.sigBytelen512 else Gen.sigBytelen1024) - Gen.signBudgetSub) = L ∧
+      ((N = 512 ∧ L = 625) ∨ (N = 1024 ∧ L = 1239)) := by
+    rcases hN with ⟨rfl, _⟩ | ⟨rfl, _⟩
+    · exact ⟨625, rfl, Or.inl ⟨rfl, rfl⟩⟩
+    · exact ⟨1239, rfl, Or.inr ⟨rfl, rfl⟩⟩
+  unfold SignSkel.signWith at hs
+  simp only [hP, Res.bind_ok, hL] at hs
+  split at hs
+  · simp at hs
+  rename_i hnorm
+  rw [C07.compress_refines] at hs
+  simp only [Res.bind_ok] at hs
+  split at hs
+  · simp at hs
+  rename_i body hbody
+  simp only [Res.pure_eq, Res.ok.injEq, Except.ok.injEq] at hs
+  subst hs
+  have hbody' : Spec.compressRef (SignSkel.s2Of N f cF z0 z1) L = some body := by
+    simpa using hbody
+  refine ⟨body, ?_, ?_⟩
+  · -- the emitted bytes parse back to (salt, body)
+    have hlen : body.length = L := by
+      simp only [Spec.compressRef, Spec.compressBits] at hbody'
+      split at hbody'
+      · simp at hbody'
+      · rename_i hc
+        simp only [Option.map_some, Option.some.injEq] at hbody'
+        subst hbody'
+        exact Spec.pack_length L _ (by simp only [List.length_append, List.length_replicate]; omega)
+    exact sig_parse N L salt body hsalt hlen hNL
+  · unfold Verify.verify
+    simp only [hP, Res.bind_ok]
+    subst hNd
+    exact honest_signature_verifies chk d hd P f g cF cG z0 z1 h _ body L lf lg lF lG l0 l1 lh hhash hk1 hk2 hPb
+      (by omega) hbody'
+
 /-- non-vacuity of `honest_signature_verifies`: a degree-2 key with h·f = g, h·F = G meets every hypothesis -/
 example : Verify.verifyCore true ⟨2, 1, 100⟩ (2 ^ 1) [5, 7] [1, 128, 64] [3, 0] = .ok true :=
   honest_signature_verifies true 1 (by decide) ⟨2, 1, 100⟩ [1, 0] [3, 0] [0, 1] [0, 3] [1, 0] [0, 2] [3, 0] [5, 7]
